@@ -529,3 +529,263 @@ def gen_hub(rng, world=None, audit=None):
     if audit is None:
         audit = 1 if rng.random() < 0.2 else 0
     return mk_history(world, blocks, audit=audit)
+
+
+# ---------------------------------------------------------------------------------------------
+# the check pipeline shared by C02 C04 C05 C06
+
+WHICH = dict(C02=2, C04=4, C05=5, C06=6)
+# flags of the findings that are listed as OPEN (behaviour of the code as it is); every other flag
+# belongs to a defect that was repaired in /repo and must stay off
+CUR_FLAGS = ["d_unordered", "d_delete_interchain", "d_interhub_timeout"]
+FLAG_FINDING = {
+    ("C02", "d_unordered"): "C02-unordered-dst", ("C04", "d_unordered"): "C04-unordered-dst", ("C06", "d_unordered"): "C06-unordered-dst",
+    ("C02", "d_delete_interchain"): "C02-delete-interchain", ("C04", "d_delete_interchain"): "C04-delete-interchain",
+    ("C06", "d_delete_interchain"): "C06-delete-interchain",
+    ("C04", "d_interhub_timeout"): "C04-interhub-timeout", ("C06", "d_interhub_timeout"): "C06-interhub-timeout",
+}
+PROOF_TARGETS = ["Proofs/TxFsmProofs", "Proofs/IbtpProps", "Proofs/RouterProofs"]
+MODEL_TARGETS = ["TxMgr", "Interchain", "IbtpExec", "IbtpMon", "IbtpJudge"]
+
+
+def candidates():
+    """subsets of CUR_FLAGS, smallest first (the first one reproducing a trace is minimal)"""
+    n = len(CUR_FLAGS)
+    subs = sorted(range(2 ** n), key=lambda m: (bin(m).count("1"), m))
+    return [[CUR_FLAGS[i] for i in range(n) if m >> i & 1] for m in subs]
+
+
+def judge(ctx, pid, pairs, tag="j"):
+    """pairs: [(history, impl_blocks)] -> list of verdicts or None"""
+    cands = candidates()
+    pre = HEADER + "Definition cfgs : list Defects := %s.\n" % glist(cands, g_cfg)
+    rows = [g_case(h, impl) for h, impl in pairs]
+    vs, msg = vlib.coq_judge_sharded("ibtp_%s_%s" % (pid, tag), pre, "icase", "(judge_ibtp %d cfgs)" % WHICH[pid], rows,
+                                     shard=80 if ctx.quick else 150, timeout=1500)
+    if vs is None:
+        ctx.broken("correspondence:judge_ibtp", msg)
+    return vs
+
+
+def classify(h, impl):
+    """non-trivial = at least one accepted and one rejected transaction; plus a coarse shape for the distribution"""
+    acc = sum(1 for b in impl for r in b["rc"] if r[0])
+    rej = sum(1 for b in impl for r in b["rc"] if not r[0])
+    shape = []
+    if any(b["to"] for b in impl):
+        shape.append("timeout")
+    if any(b["mt"] for b in impl):
+        shape.append("multi")
+    if any(op[0] == 1 and op[5] for b in h["blocks"] if b != 0 for op in b):
+        shape.append("group")
+    if any(b == 0 for b in h["blocks"]):
+        shape.append("restart")
+    if h.get("audit"):
+        shape.append("audit")
+    return acc > 0 and rej > 0, "+".join(shape) or "plain", acc, rej
+
+
+def hkey(h):
+    return json.dumps([h["svcs"], h["hubs"], h["audit"], h["blocks"]], sort_keys=True)
+
+
+def eval_histories(ctx, pid, exe, hs, tag):
+    """run implementation + judge; returns list of (history, impl_blocks, verdict) for those that ran"""
+    out = []
+    step = 120
+    for k in range(0, len(hs), step):
+        chunk = hs[k:k + step]
+        rc, res, e = run_impl(exe, chunk)
+        pairs = []
+        for h, r in zip(chunk, res):
+            if r is None or r[0]:
+                ctx.broken("driver:ibtp", (r[0] if r else "driver died: " + e[-800:]))
+                continue
+            if len(r[1]) != n_blocks(h):
+                ctx.broken("driver:ibtp", "block count mismatch")
+                continue
+            pairs.append((h, r[1]))
+        if not pairs:
+            continue
+        vs = judge(ctx, pid, pairs, "%s%d" % (tag, k))
+        if vs is None:
+            continue
+        out += [(h, impl, v) for (h, impl), v in zip(pairs, vs)]
+    return out
+
+
+def shrink(ctx, pid, exe, h, code, budget=30):
+    """greedy delta-debugging on blocks then operations; keeps the verdict code"""
+    def still(hh):
+        rc, res, e = run_impl(exe, [hh])
+        if not res or res[0] is None or res[0][0]:
+            return False
+        vs = judge(ctx, pid, [(hh, res[0][1])], "shrink")
+        return bool(vs) and vs[0][0] == code
+    cur = copy.deepcopy(h)
+    changed = True
+    while changed and budget > 0:
+        changed = False
+        for bi in range(len(cur["blocks"]) - 1, -1, -1):
+            if budget <= 0:
+                break
+            cand = copy.deepcopy(cur)
+            del cand["blocks"][bi]
+            if not any(b != 0 for b in cand["blocks"]):
+                continue
+            budget -= 1
+            if still(finish_history(cand)):
+                cur, changed = cand, True
+        for bi in range(len(cur["blocks"])):
+            if cur["blocks"][bi] == 0:
+                continue
+            for oi in range(len(cur["blocks"][bi]) - 1, -1, -1):
+                if budget <= 0:
+                    break
+                cand = copy.deepcopy(cur)
+                del cand["blocks"][bi][oi]
+                budget -= 1
+                if still(finish_history(cand)):
+                    cur, changed = cand, True
+    return finish_history(cur)
+
+
+def load_corpus(pid):
+    out = []
+    d = vlib.CORPUS
+    for f in sorted(os.listdir(d)):
+        if f.startswith(pid + "_") and f.endswith(".json"):
+            obj = json.load(open(os.path.join(d, f)))
+            if "history" in obj:
+                out.append((f, obj))
+    return out
+
+
+def decide(ctx, pid, exe, rows, known, origin):
+    """rows: (history, impl, verdict).  Records known findings / violations / broken correspondence."""
+    cands = candidates()
+    dist = ctx.extra.setdefault("distribution", {})
+    for h, impl, v in rows:
+        nontriv, shape, acc, rej = classify(h, impl)
+        dist[shape] = dist.get(shape, 0) + 1
+        ctx.count(case_key=hkey(h), nontrivial=nontriv,
+                  sample=dict(driver="ibtp", origin=origin, blocks=h["blocks"][:4], accepted=acc, rejected=rej, verdict=v))
+        ctx.traces_validated += 1
+        code, n = v
+        flags = cands[n - 1] if n > 0 else None
+        rep = dict(property=pid, driver="ibtp", history=h, impl=impl, verdict=v, matched_flags=flags)
+        if code == 0:
+            continue
+        if code == 2:
+            fids = [FLAG_FINDING.get((pid, f)) for f in (flags or [])]
+            fids = [f for f in fids if f and f in known]
+            if flags and fids and len(fids) == len(flags):
+                for f in fids:
+                    ctx.known(f, known[f]["what"])
+                continue
+            if h.get("gas") and "C02-gasfee-partial-revert" in known and pid == "C02" and \
+                    any(r[0] == 0 and r[1] == 15 for b in impl for r in b["rc"]):
+                ctx.known("C02-gasfee-partial-revert", known["C02-gasfee-partial-revert"]["what"])
+                continue
+            small = shrink(ctx, pid, exe, h, 2) if not ctx.violations else h
+            rep["history"] = small
+            ctx.violation("%s predicate false on the implementation trace (matched flags: %s)" % (pid, flags), rep)
+        elif code == 1:
+            if h.get("gas"):
+                continue        # fee failures are outside the modelled domain (gas price 0 everywhere else)
+            ctx.broken("correspondence:judge_ibtp", "model and implementation differ after %d blocks: %s" % (n, json.dumps(rep)[:3000]))
+        else:
+            ctx.broken("correspondence:domain", "history left the modelled domain: " + json.dumps(h)[:2000])
+
+
+def malformed(rng, world, n):
+    """a stream of mostly invalid operations: bad service numbers, wrong types, huge / zero indices, bad proofs, random calls"""
+    k = len(world["svcs"])
+    hs = []
+    for _ in range(n):
+        blocks = []
+        for _ in range(rng.randrange(1, 6)):
+            ops = []
+            for _ in range(rng.randrange(0, 5)):
+                f, t = rng.randrange(0, k + 3), rng.randrange(0, k + 3)
+                c = rng.random()
+                if c < 0.35:
+                    ops.append([1, f, t, rng.choice([0, 1, 2, MAXU, 2 ** 63, rng.randrange(0, 5)]), rng.choice([0, 1, -1, 2 ** 63 - 1, -2 ** 63, 3]),
+                                rng.choice([0, 0, 1, 2]), rng.randrange(0, 4), rng.choice([0, 1, 1])])
+                    if ops[-1][5] == 0:
+                        ops[-1][6] = 0
+                elif c < 0.7:
+                    ops.append([2, f, t, rng.choice([0, 1, 2, MAXU, rng.randrange(0, 5)]), rng.choice([1, 2, 3, 4]), rng.choice([0, 1, 1])])
+                elif c < 0.9:
+                    m = rng.randrange(1, 9)
+                    if m in (4, 6, 7, 8):
+                        ops.append([4, m, f, t, rng.choice([0, 1, 2, MAXU]), rng.randrange(0, 4)])
+                    elif m == 5:
+                        ops.append([4, m, f, t, 1, 0])
+                    else:
+                        ops.append([4, m, rng.randrange(0, k + 3), 0, 0, 0])
+                else:
+                    ops.append([6, max(1, min(f, k)), max(1, min(t, k)), rng.randrange(0, 3), rng.choice([0, 3])])
+            blocks.append(ops)
+        hs.append(mk_history(world, blocks, audit=rng.choice([0, 0, 1])))
+    return hs
+
+
+def run_check(ctx, pid, gens, n_quick, n_thorough, router_n=0):
+    """gens: list of (weight, function(rng) -> history)"""
+    ctx.proofs(PROOF_TARGETS, model_targets=MODEL_TARGETS)
+    exe, err = vlib.build_harness("ibtp")
+    if exe is None:
+        ctx.broken("harness-build", err)
+        return ctx.finish(rule="-")
+    known = {f["id"]: f for f in vlib.known_findings() if f["property"] == pid}
+    if ctx.model_ok:
+        # 1. corpus
+        corpus = load_corpus(pid)
+        rows = eval_histories(ctx, pid, exe, [finish_history(o["history"]) for _, o in corpus], "c")
+        decide(ctx, pid, exe, rows, known, "corpus")
+        ctx.extra["corpus_files"] = [f for f, _ in corpus]
+        # 2. structured stream + malformed stream
+        n = n_quick if ctx.quick else n_thorough
+        tot = sum(wt for wt, _ in gens)
+        hs = []
+        for wt, g in gens:
+            hs += [g(ctx.rng) for _ in range(max(1, n * wt // tot))]
+        hs += malformed(ctx.rng, W_MIXED, max(6, n // 10))
+        rows = eval_histories(ctx, pid, exe, hs, "g")
+        decide(ctx, pid, exe, rows, known, "generated")
+        ctx.extra["generated"] = len(hs)
+    if router_n:
+        try:
+            from checks import router_common
+            router_common.run_router(ctx, router_n)
+        except Exception as ex:      # the router leg belongs to the coordinator: report, do not hide
+            ctx.broken("router-leg", repr(ex))
+    return ctx.finish(
+        rule="corpus first, then seeded structured histories (indices from {expected, expected+-1, 0, 2^64-1, repeats}; T in {0,1,small,huge,negative}; "
+             "receipts before/at/after H+T; groups of 1-5 children over 1-3 destination chains with a failing child or a timeout at every position; "
+             "restarts; public interchain-contract calls; audit on/off) plus a malformed stream; every trace is judged inside Coq: the property "
+             "predicate on the IMPLEMENTATION trace first, then model = implementation under a subset of the open findings' flags; "
+             "non-trivial = at least one accepted and one rejected transaction, distinct by history",
+        explanation="KNOWN-FINDING lines are printed only for listed open findings whose flag set is the minimal one reproducing a violating implementation trace")
+
+
+def replay_check(ctx, pid, path):
+    obj = json.load(open(path))
+    if obj.get("driver") == "router":
+        from checks import router_common
+        return router_common.replay_router(ctx, obj)
+    if "history" not in obj:
+        print(json.dumps(obj)[:2000])
+        return 1
+    exe, err = vlib.build_harness("ibtp")
+    h = finish_history(obj["history"])
+    rc, res, e = run_impl(exe, [h])
+    if not res or res[0] is None or res[0][0]:
+        print("driver error", res, e[-500:])
+        return 1
+    vs = judge(ctx, pid, [(h, res[0][1])], "replay")
+    cands = candidates()
+    v = vs[0] if vs else None
+    print(json.dumps(dict(history=h, impl=res[0][1], verdict=v, matched_flags=(cands[v[1] - 1] if v and v[1] > 0 else None))))
+    return 0 if v and v[0] == 0 else 1
